@@ -211,3 +211,11 @@ impl log4rs::encode::Write for Sink {
         Ok(())
     }
 }
+
+/// drains the deliveries whose tag starts with `prefix` (parallel cases use distinct prefixes)
+pub fn take_deliveries_for(prefix: &str) -> Vec<(String, usize, String)> {
+    let mut r = REGISTRY.lock().unwrap();
+    let (mine, rest): (Vec<_>, Vec<_>) = std::mem::take(&mut r.delivered).into_iter().partition(|d| d.0.starts_with(prefix));
+    r.delivered = rest;
+    mine
+}
